@@ -75,7 +75,7 @@ theorem render_starts_at_base (c : List Level) (hwf : wf c = true) (hc : compile
   refine ⟨builtHeap c.length, populateSelf_built c hwf hc, ?_⟩
   rw [render_built c hwf hc]
   have : base.member bodyName = some (MKind.body, base.sig, base.nodes) := by simp [Level.member]
-  simp only [invoke, hb, Option.bind_some, this]
+  simp only [invoke, hb, Option.bind_some, this, finishCall_eq]
   rfl
 
 example : compiles ex3 = true ∧ (ex3[ex3.length - 1]?).isSome = true := by decide
@@ -266,7 +266,45 @@ example : ['b'] ∉ nsAttrs ∧ firstFrom ex3 0 ['b'] = some 0 ∧ (∃ k, 0 < k
 /-- anonymous blocks render in place: exactly their content, in the same environment -/
 theorem anonymous_block_in_place (c : List Level) (D : Dispatch) (run : Env → List Node → Res) (env : Env)
     (ln : Nat) (kids : List Node) :
-    step c D run env (.block none ln kids) = run env kids := rfl
+    step c D run env (.block none ln kids) = run env kids := by
+  simp only [step, finishCall_eq]
+
+/-- **buffered_block_renders_in_place** (F-C06-4, repaired by 248d875).  A block written with `buffered="True"`
+collects its content and *returns* it, any other block writes it and returns `''` (`callResult`); the statement
+at a block's position and `${r.b()}` write what the call wrote and then what it returned (`writeCall`).  Hence:
+the output of the statement is exactly the block's content whatever the flag; an anonymous block renders in
+place whatever its flag; and for a named block the flag that matters is the one of the definition that *runs*
+(level `t`, the most-derived one found by dispatch) - an unbuffered base block overridden by a buffered one, or
+the converse, still yields the override's content once at the position. -/
+theorem buffered_block_renders_in_place (c : List Level) (D : Dispatch) (run : Env → List Node → Res) (env : Env) :
+    (∀ buffered content, writeCall (callResult buffered content) = content) ∧
+    (∀ ln kids, step c D run env (.block none ln kids) = run env kids) ∧
+    (∀ t cx lv x kind params kids pos kw, c[t]? = some lv → lv.member x = some (kind, params, kids) →
+      invoke c run (.member t cx) x pos kw =
+        match bind params (kind != .defn) pos kw with
+        | none => .error .typeError
+        | some (b, e) =>
+          run { tmpl := t, ctx := cx, bound := b, pageargs := if kind = .defn then none else some e } kids) := by
+  refine ⟨writeCall_callResult, fun ln kids => by simp only [step, finishCall_eq], ?_⟩
+  intro t cx lv x kind params kids pos kw ht hm
+  simp only [invoke, ht, Option.bind_some, hm, finishCall_eq]
+  rfl
+
+/-- the override case evaluated: the base declares `n` unbuffered, the derived template overrides it with
+`buffered="True"` (and conversely); an anonymous buffered block between two texts -/
+example :
+    let base : Level := { nodes := [.text 1, .block (some ['n']) 1 [.text 2], .text 3, .call .next bodyName [] []] }
+    let child : Level := { nodes := [.block (some ['n']) 1 [.text 4]], inherit := .static, buffered := [['n']] }
+    render [child, base] 20 [] = .ok [.text 1, .text 4, .text 3] ∧
+    render [{ child with buffered := [] }, { base with buffered := [['n']] }] 20 [] = .ok [.text 1, .text 4, .text 3] ∧
+    render [{ nodes := [.text 1, .block none 1 [.text 2], .text 3], bufferedAnon := [1] }] 20 [] =
+      .ok [.text 1, .text 2, .text 3] := by decide
+
+/-- regression: what the bare call written before 248d875 left in the output - what the block wrote, without
+what it returned - is nothing for a buffered block -/
+theorem buffered_block_regression (content : List Out) :
+    (callResult true content).1 = [] ∧ (callResult false content).1 = content := by
+  simp [callResult]
 
 /-- **named_block_once**, global form (partial: names are not attributes of mako's Namespace objects).
 For a chain of any length in which every body consists of texts, defs, named blocks holding texts and (from `T₁`
@@ -288,7 +326,7 @@ example : wf exPlain = true ∧ compiles exPlain = true ∧ (∀ x ∈ usedNames
 example : PlainChain exPlain := plainChain_of_check exPlain (by decide)
 
 /-- **named_block_once**, as a count (partial: names are not attributes of mako's Namespace objects).
-In a plain chain (`named_block_once_partial`) of any length whose bodies, from `T₁` on, call `next.body()` exactly
+In a plain chain (`named_block_once_partial`; blocks may carry `buffered="True"` at any level) of any length whose bodies, from `T₁` on, call `next.body()` exactly
 once and whose block names are unique within each template: let `b` be a block name, `kb` the base-most template
 declaring it, and `k` a text that occurs once in the most-derived definition of `b` and in no body and no
 most-derived content of another block.  Then `k` occurs in the render output exactly once - whatever the
@@ -366,7 +404,7 @@ theorem body_args_reach_page_signature (c : List Level) (hwf : wf c = true) (hc 
   have hf : firstFrom c j bodyName = some j :=
     firstIdx_eq_some (Nat.le_refl _) (by omega) hd (fun m a b => by omega)
   have hm : target.member bodyName = some (MKind.body, target.sig, target.nodes) := by simp [Level.member]
-  simp only [specDispatch, ruleDispatch, hnb, if_false, hf, invoke, hj, Option.bind_some, hm]
+  simp only [specDispatch, ruleDispatch, hnb, if_false, hf, invoke, hj, Option.bind_some, hm, finishCall_eq]
   rfl
 
 example : (heapDispatch ex3 (builtHeap ex3.length)).ref 1 .next = some 0 ∧ (ex3[0]?).isSome = true := by
@@ -403,7 +441,7 @@ theorem member_call_binds_partial (c : List Level) (hwf : wf c = true) (hc : com
       · rw [List.getElem?_eq_none hge] at hi; simp at hi
     have hd : hasDef c i x = true := by simp [hasDef, hi, Level.declares, hm]
     rw [firstIdx_eq_some h1 (by omega) hd h4]
-    simp only [invoke, hi, Option.bind_some, hm]
+    simp only [invoke, hi, Option.bind_some, hm, finishCall_eq]
     rfl
   · intro h1
     rw [firstIdx_eq_none (fun m hm1 hm2 => h1 m hm1 (by omega))]
